@@ -25,8 +25,8 @@ Simple(k, n) ==
     [] k = "table"  -> Local(<<"t" \o n>>, <<Table(<<FName("p", Num("1")), FName("q", Num("2"))>>)>>)
     [] k = "return" -> Return(<<Name("r")>>)
 
-Inner(k) == CASE k = "do" -> <<"local", "call">> [] k = "if" -> <<"assign">> [] k = "func" -> <<"local", "return">> [] OTHER -> <<>>
-IsContainer(k) == k \in {"do", "if", "func"}
+Inner(k) == CASE k = "do" -> <<"local", "call">> [] k = "repeat" -> <<"call">> [] k = "if" -> <<"assign">> [] k = "func" -> <<"local", "return">> [] OTHER -> <<>>
+IsContainer(k) == k \in {"do", "if", "func", "repeat"}
 Size(k) == 1 + Len(Inner(k))
 
 RECURSIVE Base(_, _)
@@ -46,6 +46,7 @@ ItemTree(p, ds, j) ==
   IN  Wrap(CASE k = "do"   -> Do(Block(inner))
              [] k = "if"   -> If(Name("c"), Block(inner))
              [] k = "func" -> LocalFunction("h", <<>>, Block(inner))
+             [] k = "repeat" -> Repeat(Block(inner), Name("done"))
              [] OTHER      -> Simple(k, "t"), ds, b)
 
 Programs == UNION {[1..n -> ItemKinds] : n \in 1..MaxTop}
@@ -101,7 +102,7 @@ Case ==
 
 (* `f(a)` followed by `(g)(a)` is ONE statement unless a `;` separates them: such programs are not what
    the generator means (not faithful), so they are only emitted once the `;` deviation is present *)
-EndsInExpr(k) == k \in {"local", "call", "pcall", "assign", "table"}
+EndsInExpr(k) == k \in {"local", "call", "pcall", "assign", "table", "repeat"}
 NeedsSemiOK ==
   /\ \A j \in 1..(Len(prog) - 1) :
         (prog[j + 1] = "pcall" /\ EndsInExpr(prog[j])) => HasDev(devs, "semi", Base(prog, j))
